@@ -1812,7 +1812,7 @@ class Fxp():
                 return self.config.array_op_out.set_val(out_arr, raw=raw)
             elif self.config.array_op_out_like is not None:
                 return self.__class__(out_arr, like=self.config.array_op_out_like, raw=raw)
-            elif not isinstance(out_arr, self.__class__):
+            elif not isinstance(out_arr, Fxp):
                 return self.__class__(out_arr)
 
         elif self.config._array_output_type == 'array' and isinstance(out_arr, self.__class__):
